@@ -36,6 +36,13 @@ package webrtc
 // Histories cover both roles in the first negotiation: the PeerConnection under test may offer first, or may first ANSWER an
 // offer of the peer (media only / data only / media + data) and create its own offers afterwards, so that offers are built
 // against every kind of current remote description (none, with, without application section).
+//
+// Mids that CreateOffer did not hand out: an offer of the peer may stay PENDING on pc (have-remote-offer) while pc adds
+// transceivers and creates offers, and is then answered or ROLLED BACK (the transceivers created for it keep the remote offer's
+// mids although no current remote description names them); and the application may assign the mid of a new transceiver itself
+// (RTPTransceiver.SetMid: a free small number or a non-numeric token) before CreateOffer sees it. The clause "each transceiver
+// has exactly one m-section carrying its mid" is judged for all of them alike; the cause signature of a mid that names several
+// sections says who handed the mid out to each transceiver carrying it (user / remote-offer / exchange / CreateOffer).
 
 import (
 	"errors"
@@ -138,6 +145,18 @@ type c12Case struct {
 	peerDC     bool // the peer created a data channel
 	peerDCNeg  bool // ... and an offer of the peer carrying it was answered by pc
 	pcOffered  bool // an offer of pc was applied in a complete exchange
+
+	remoteSeen    bool // some remote description was applied on pc, be it only a pending offer that was rolled back later (the MediaEngine has seen it)
+	inRemoteOffer bool // pc is in have-remote-offer right now (an offer of the peer is pending)
+	rolledBack    bool // a remote offer was applied on pc and rolled back
+	pendingSeen   bool // a remote offer was left pending on pc at some point of the case
+	peerDCPending bool // the pending remote offer may carry the peer's data channel (statement silent about the application section)
+	userMids      int  // mids the application assigned itself (RTPTransceiver.SetMid before any CreateOffer touched the transceiver)
+
+	// midOrigin: who gave each transceiver of pc its mid, as the harness saw it happen (the call after which the transceiver first
+	// carried a mid): "user" (SetMid), "remote-offer" (SetRemoteDescription(offer) matched / created it), "exchange", "CreateOffer".
+	// Evidence and cause signatures only.
+	midOrigin map[*RTPTransceiver]string
 
 	peerDrop map[string]bool // mime types the peer's engine lacks (nil: the peer's engine is configured like pc's)
 
@@ -496,7 +515,9 @@ func (c *c12Case) checkOffer(offer SessionDescription) { //nolint:cyclop,gocogni
 	}
 	c.offers++
 	c.run.Count("offers_checked", 1)
+	c.noteMids("CreateOffer")
 	trs := append([]*RTPTransceiver{}, c.pc.GetTransceivers()...)
+	c.offerSituation(trs, d)
 	var media, apps []*kit.SDPMedia
 	for _, m := range d.Media {
 		if m.Kind == "application" {
@@ -532,7 +553,20 @@ func (c *c12Case) checkOffer(offer SessionDescription) { //nolint:cyclop,gocogni
 
 			continue
 		case len(secs) > 1:
-			c.violation("transceiver-multiple-sections", fmt.Sprintf("mid %q of transceiver #%d appears in %d media sections", mid, i, len(secs)), offer.SDP)
+			// cause: when several transceivers carry this mid, the signature says who handed the mid out to each of them
+			sig, sharers := "transceiver-multiple-sections", ""
+			var origins []string
+			for j, o := range trs {
+				if o.Mid() == mid {
+					origins = append(origins, c.midOrigin[o])
+					sharers += fmt.Sprintf(" #%d(%s %s, mid from %s)", j, o.Kind(), o.Direction(), c.midOrigin[o])
+				}
+			}
+			if len(origins) > 1 {
+				sort.Strings(origins)
+				sig += ":mid-shared-by-transceivers:" + strings.Join(origins, "+")
+			}
+			c.violation(sig, fmt.Sprintf("mid %q of transceiver #%d appears in %d media sections; transceivers carrying it:%s", mid, i, len(secs), sharers), offer.SDP)
 
 			continue
 		}
@@ -662,7 +696,7 @@ func (c *c12Case) checkOffer(offer SessionDescription) { //nolint:cyclop,gocogni
 		if len(wantFEC) > 0 {
 			c.run.Count("sending_tracks_with_fec", 1)
 		}
-		if c.remoteSet == 0 && t.Kind() == RTPCodecTypeVideo {
+		if c.remoteSet == 0 && !c.remoteSeen && t.Kind() == RTPCodecTypeVideo {
 			// "when those are enabled": known from the engine this case registered, only while nothing was negotiated yet
 			if c.eng.RTX && len(wantFID) != len(encs) {
 				c.violation("rtx-enabled-without-rtx-ssrc", fmt.Sprintf("mid %q: engine %s registers rtx, sender has %d encodings but %d RTX ssrcs", mid, c.eng.Name, len(encs), len(wantFID)), offer.SDP)
@@ -723,7 +757,7 @@ func (c *c12Case) checkOffer(offer SessionDescription) { //nolint:cyclop,gocogni
 	case wantApp && len(apps) == 0:
 		c.violation("application-section-missing:"+why+":"+remoteApp, fmt.Sprintf("data channel created=%v AlwaysNegotiateDataChannels=%v (at construction %v) but the offer has no application section; offer built with %s",
 			c.dcCreated, c.always, c.alwaysInit, remoteApp), offer.SDP)
-	case !wantApp && c.peerDCNeg:
+	case !wantApp && (c.peerDCNeg || c.peerDCPending):
 		// only the remote side asked for data channels: outside the statement, observed only
 		c.run.Seen("application_remote_datachannel_only", fmt.Sprintf("sections=%d", len(apps)))
 	case !wantApp && len(apps) > 0:
@@ -751,6 +785,9 @@ func (c *c12Case) offerAndCheck() {
 	if err != nil {
 		c.step("CreateOffer", "", err)
 		c.run.Seen("create_offer_errors", c12ErrClass(err))
+		// CreateOffer failing is outside the statement (it speaks about successful calls); the situation is kept as evidence
+		c.run.Seen("create_offer_error_situations", fmt.Sprintf("have-remote-offer=%v, remote offer was left pending before=%v, rolled back before=%v, user mids=%v: %s",
+			c.inRemoteOffer, c.pendingSeen, c.rolledBack, c.userMids > 0, c12ErrClass(err)))
 
 		return
 	}
@@ -779,6 +816,8 @@ func (c *c12Case) exchange(offerer, answerer *PeerConnection, what string) bool 
 		c.answeredFirst = true
 	}
 	c.remoteSet++
+	c.remoteSeen = true
+	c.noteMids("exchange")
 	c.run.Count("exchanges", 1)
 	if offerer == c.pc {
 		c.pcOffered = true
@@ -856,14 +895,255 @@ func (c *c12Case) maybeWaitConnected() {
 	c.run.Count("exchange_connected", 1)
 }
 
-func (c *c12Case) op() { //nolint:cyclop,gocognit
+// noteMids records, for every transceiver of pc that carries a mid the harness has not seen on it before, that it got the mid
+// through the call named by origin (the harness calls this right after each call that can hand out mids).
+func (c *c12Case) noteMids(origin string) {
+	if c.midOrigin == nil {
+		c.midOrigin = map[*RTPTransceiver]string{}
+	}
+	for _, t := range c.pc.GetTransceivers() {
+		if _, ok := c.midOrigin[t]; !ok && t.Mid() != "" {
+			c.midOrigin[t] = origin
+		}
+	}
+}
+
+// offerSituation: evidence about the situation a checked offer was built in (never decides a verdict).
+func (c *c12Case) offerSituation(trs []*RTPTransceiver, d *kit.SDPDesc) {
+	origins := map[string]bool{}
+	for _, t := range trs {
+		if o := c.midOrigin[t]; o != "" {
+			origins[o] = true
+		}
+	}
+	var os []string
+	for o := range origins {
+		os = append(os, o)
+	}
+	sort.Strings(os)
+	state := "stable"
+	if c.inRemoteOffer {
+		state = "have-remote-offer"
+		c.run.Count("offers_checked_in_have_remote_offer", 1)
+	}
+	if c.rolledBack {
+		c.run.Count("offers_checked_after_rollback", 1)
+	}
+	if origins["user"] {
+		c.run.Count("offers_checked_with_user_mid", 1)
+	}
+	remote := "no current remote description"
+	if c.pc.CurrentRemoteDescription() != nil {
+		remote = "current remote description"
+	}
+	if (origins["user"] || origins["remote-offer"]) && origins["CreateOffer"] && c.pc.CurrentRemoteDescription() == nil {
+		c.run.Count("offers_checked_foreign_and_own_mids_no_remote_description", 1)
+	}
+	c.run.Seen("mid_origin_situations", state+", "+remote+", mids from "+strings.Join(os, "+"))
+	// the application section's mid is not part of the statement; a collision with a transceiver's mid is only counted
+	for _, m := range d.Media {
+		if m.Kind != "application" {
+			continue
+		}
+		if amid, ok := m.Mid(); ok {
+			for _, t := range trs {
+				if t.Mid() == amid {
+					c.run.Count("model_divergence_application_mid_shared_with_transceiver", 1)
+				}
+			}
+		}
+	}
+}
+
+// usedMids: every mid the harness can see in use on pc: mids of its transceivers and of all m-sections of its current /
+// pending local and remote descriptions.
+func (c *c12Case) usedMids() map[string]bool {
+	used := map[string]bool{}
+	for _, t := range c.pc.GetTransceivers() {
+		if m := t.Mid(); m != "" {
+			used[m] = true
+		}
+	}
+	for _, sd := range []*SessionDescription{c.pc.CurrentLocalDescription(), c.pc.PendingLocalDescription(), c.pc.CurrentRemoteDescription(), c.pc.PendingRemoteDescription()} {
+		if sd == nil {
+			continue
+		}
+		if p, err := kit.ParseSDP(sd.SDP); err == nil {
+			for _, m := range p.Media {
+				if mid, ok := m.Mid(); ok {
+					used[mid] = true
+				}
+			}
+		}
+	}
+
+	return used
+}
+
+// maybeUserMid: in 15% of the successful AddTrack / AddTransceiverFromKind / AddTransceiverFromTrack calls the application
+// assigns the mid of the new transceiver itself (RTPTransceiver.SetMid, legal while the transceiver has no mid), before any
+// CreateOffer sees the transceiver: a small number (possibly below, equal to or above the next number CreateOffer would use)
+// or a non-numeric token, never a mid that is in use on pc.
+func (c *c12Case) maybeUserMid(t *RTPTransceiver) {
+	if t == nil || t.Mid() != "" || !c.r.Chance(0.15) {
+		return
+	}
+	used := c.usedMids()
+	top := -1
+	for m := range used {
+		if v, err := strconv.Atoi(m); err == nil && v > top {
+			top = v
+		}
+	}
+	var free []string
+	class := "numeric"
+	if c.r.Chance(0.75) {
+		for v := 0; v <= top+3; v++ {
+			if !used[strconv.Itoa(v)] {
+				free = append(free, strconv.Itoa(v))
+			}
+		}
+	} else {
+		class = "non-numeric"
+		for _, m := range []string{"a", "v1", "mid-x", "cam"} {
+			if !used[m] {
+				free = append(free, m)
+			}
+		}
+	}
+	if len(free) == 0 {
+		return
+	}
+	mid := kit.Pick(c.r, free)
+	err := t.SetMid(mid)
+	c.step("SetMid", mid, err)
+	if err != nil {
+		return
+	}
+	if c.midOrigin == nil {
+		c.midOrigin = map[*RTPTransceiver]string{}
+	}
+	c.midOrigin[t] = "user"
+	c.userMids++
+	c.run.Seen("ops", "SetMid "+class)
+	rel := "no mid in use yet"
+	if v, aerr := strconv.Atoi(mid); aerr == nil && top >= 0 {
+		rel = map[bool]string{true: "above every numeric mid in use", false: "below the greatest numeric mid in use"}[v > top]
+	} else if aerr != nil {
+		rel = "non-numeric"
+	}
+	c.run.Seen("user_mid_classes", rel)
+}
+
+// remoteOfferPending: the peer changes its side and sends an offer; pc applies it (have-remote-offer) and, while it is pending,
+// creates offers of its own — right away and after 0-2 local additions (AddTrack / AddTransceiverFrom* / simulcast /
+// CreateDataChannel) — which the oracle judges like any other successful CreateOffer. Then the pending offer is either answered
+// (the exchange completes) or rolled back on both sides (SetRemoteDescription / SetLocalDescription with type rollback): the
+// transceivers pc created for the remote offer stay, with the mids of the remote offer, while there still is no (new) current
+// remote description. Only called while every transceiver of pc is known to the peer (!localNew), as peerOffers.
+func (c *c12Case) remoteOfferPending(tag string) {
+	r := c.r
+	what, ok := c.peerMutate()
+	if !ok {
+		return
+	}
+	first := map[bool]string{true: "first negotiation", false: "renegotiation"}[c.remoteSet == 0]
+	offer, err := rigOffer(c.peer, true)
+	if err == nil {
+		if err = c.pc.SetRemoteDescription(offer); err != nil {
+			err = fmt.Errorf("SetRemoteDescription(offer): %w", err)
+		}
+	}
+	c.step("peer offers, pc.SetRemoteDescription(offer)", what, err)
+	if err != nil {
+		c.run.Seen("exchange_errors", c12ErrClass(err))
+		c.dead = true
+
+		return
+	}
+	c.remoteSeen, c.inRemoteOffer, c.peerDCPending, c.pendingSeen = true, true, c.peerDC, true
+	c.noteMids("remote-offer")
+	c.run.Seen("ops", "remote offer pending")
+	c.offerAndCheck()
+	for j, n := 0, r.Intn(3); j < n; j++ {
+		if k := r.Intn(56); k < 47 {
+			c.opK(k) // AddTrack, AddTransceiverFromKind, AddTransceiverFromTrack, simulcast
+		} else {
+			c.opK(70) // CreateDataChannel
+		}
+		c.offerAndCheck()
+	}
+	c.inRemoteOffer = false
+	if r.Chance(0.55) {
+		err = c.pc.SetRemoteDescription(SessionDescription{Type: SDPTypeRollback})
+		if err == nil {
+			err = c.peer.SetLocalDescription(SessionDescription{Type: SDPTypeRollback})
+		}
+		c.step("rollback (pc.SetRemoteDescription, peer.SetLocalDescription)", "", err)
+		c.peerDCPending = false
+		if err != nil {
+			c.run.Seen("exchange_errors", c12ErrClass(err))
+			c.dead = true
+
+			return
+		}
+		c.rolledBack = true
+		c.run.Seen("remote_offer_resolutions", tag+", "+first+": rolled back")
+
+		return
+	}
+	answer, err := c.pc.CreateAnswer(nil)
+	if err == nil {
+		err = c.pc.SetLocalDescription(answer)
+	}
+	if err == nil && !rigGatherDone(c.pc, 10*time.Second) {
+		err = errors.New("gathering watchdog") //nolint:err113
+	}
+	if err == nil {
+		err = c.peer.SetRemoteDescription(*c.pc.LocalDescription())
+	}
+	c.step("pc answers the pending offer", "", err)
+	c.peerDCPending = false
+	if err != nil {
+		c.run.Seen("exchange_errors", c12ErrClass(err))
+		c.dead = true
+
+		return
+	}
+	if c.remoteSet == 0 {
+		c.answeredFirst = true
+	}
+	c.remoteSet++
+	c.noteMids("exchange")
+	c.run.Count("exchanges", 1)
+	if c.peerDC {
+		c.peerDCNeg = true
+	}
+	c.run.Seen("remote_offer_resolutions", tag+", "+first+": answered")
+	c.maybeWaitConnected()
+}
+
+func (c *c12Case) op() {
 	r := c.r
 	pc := c.pc
-	dirs := []RTPTransceiverDirection{RTPTransceiverDirectionSendrecv, RTPTransceiverDirectionSendonly, RTPTransceiverDirectionRecvonly}
 	k := r.Intn(100)
 	if c.remoteSet > 0 && len(pc.GetSenders()) > 0 && r.Chance(0.2) {
 		k = 54 // once something was negotiated, ReplaceTrack (a call that "should not require negotiation") gets a larger share
 	}
+	if !c.localNew && r.Chance(0.08) {
+		// an offer of the peer arrives and stays pending for a while; it is answered or rolled back (see remoteOfferPending)
+		c.remoteOfferPending("operation")
+
+		return
+	}
+	c.opK(k)
+}
+
+// opK performs the operation of class k (0..99) on pc.
+func (c *c12Case) opK(k int) { //nolint:cyclop,gocognit
+	r := c.r
+	pc := c.pc
+	dirs := []RTPTransceiverDirection{RTPTransceiverDirectionSendrecv, RTPTransceiverDirectionSendonly, RTPTransceiverDirectionRecvonly}
 	switch {
 	case k < 15:
 		tr := c.newTrack(c.kind(), "", c12PAnyCodec)
@@ -872,6 +1152,7 @@ func (c *c12Case) op() { //nolint:cyclop,gocognit
 		c.step("AddTrack", tr.label(), err)
 		if err == nil {
 			c.attach(snd, tr, "AddTrack")
+			c.maybeUserMid(c.transceiverOf(snd))
 		}
 		c.run.Seen("ops", "AddTrack")
 		c.run.Seen("tracks_attached", c.codecClass(tr))
@@ -880,6 +1161,9 @@ func (c *c12Case) op() { //nolint:cyclop,gocognit
 		t, err := pc.AddTransceiverFromKind(kind, RTPTransceiverInit{Direction: dir})
 		c.localNew = true
 		c.step("AddTransceiverFromKind", kind.String()+" "+dir.String(), err)
+		if err == nil {
+			c.maybeUserMid(t)
+		}
 		if err == nil && t.Sender() != nil {
 			// with a sending direction pion creates a track of its own: its identity is taken once, right after the call
 			if made := t.Sender().Track(); made != nil {
@@ -900,6 +1184,7 @@ func (c *c12Case) op() { //nolint:cyclop,gocognit
 		c.step("AddTransceiverFromTrack", detail, err)
 		if err == nil {
 			c.attach(t.Sender(), tr, "AddTransceiverFromTrack")
+			c.maybeUserMid(t)
 		}
 		c.run.Seen("tracks_attached", c.codecClass(tr))
 		c.run.Seen("ops", "AddTransceiverFromTrack "+init.Direction.String())
@@ -1168,7 +1453,8 @@ func TestVerifC12(t *testing.T) {
 		"(AddTrack, AddTransceiverFromKind/FromTrack in all directions, simulcast AddEncoding, RemoveTrack, ReplaceTrack on started and not started senders "+
 		"(nil / track of a negotiated / registered-but-not-negotiated / unregistered codec / of the other kind: success and every error path), Stop, CreateDataChannel, "+
 		"SetConfiguration incl. switching AlwaysNegotiateDataChannels on, complete exchange with a pion peer, peer-initiated offer with transceivers / tracks / data channel, "+
-		"direct or after pc's own offer), CreateOffer checked after every operation; non-trivial when some checked offer had "+
+		"direct or after pc's own offer; an offer of the peer left pending on pc (have-remote-offer) during 0-2 local additions and then answered or rolled back; "+
+		"application-assigned mids via RTPTransceiver.SetMid on 15% of the new transceivers), CreateOffer checked after every operation (also in have-remote-offer); non-trivial when some checked offer had "+
 		">= 2 m-sections and >= 1 sending track; distinct by the operation history")
 	defer run.Finish()
 	run.Assume("kit.ParseSDP line splitter is the trusted base; state (GetTransceivers, Mid, Kind, Direction, Sender, Track; sender encodings white-box from RTPSender.trackEncodings) is read right after CreateOffer returns, no concurrent mutators")
@@ -1220,7 +1506,11 @@ func TestVerifC12(t *testing.T) {
 		}
 		if c.peerFirst {
 			// first negotiation started by the peer: pc answers before it has made any offer of its own
-			c.peerOffers("prologue, first negotiation")
+			if r.Chance(0.4) {
+				c.remoteOfferPending("prologue")
+			} else {
+				c.peerOffers("prologue, first negotiation")
+			}
 			if !c.dead {
 				c.offerAndCheck()
 			}
